@@ -200,9 +200,6 @@ def capsOf (fields : List (Nat × Field)) (textOf : Nat → Str) : List Cap :=
 /-- finding class: more than ten fields, so that `grok10` sorts before `grok2`. -/
 def D_name_order (nFields : Nat) : Bool := decide (10 < nFields)
 
-/-- finding class: a `scale` filter applied to text that parses to NaN, or whose product is NaN. -/
-def D_scale_nan (P : Prims) (caps : List Cap) : Bool :=
-  caps.any fun c => !c.text.isEmpty && (expectedFrom P [c] (.obj .nil) 0 matches .panic)
 
 /-! ### (d) the corresponding anchored expression -/
 
